@@ -1,7 +1,7 @@
 (* Props/C05.v — property C05: slices, concat, extension, reduce, clog2 address exactly the named bits.
    ONLY statements closed by `exact`/`apply`, each followed by Print Assumptions. *)
 From PV Require Import Base.Prelude Bits.BitsSpec Bits.BitsLemmas Bits.SpecFacts Gen.BitsGen Bits.BitsProofs
-                       Bits.Helpers Gen.HelpersGen Bits.HelpersProofs.
+                       Bits.Helpers Gen.HelpersGen Bits.HelpersProofs Bits.SliceRAW.
 Open Scope Z_scope.
 
 (* the generated __getitem__/__setitem__ equal the specification on EVERY index (valid or not) *)
@@ -48,6 +48,31 @@ Theorem C05_bit_write_frames n u nx k v r :
   exists w u', r = (n, u', nx) /\ (w = 0 \/ w = 1) /\ inrange n u' /\
     forall i, 0 <= i -> Z.testbit u' i = if i =? k then Z.odd w else Z.testbit u i.
 Proof. exact (setitem_bit_frame n u nx k v r). Qed.
+
+(* read after write, on the generated code's specification: after a valid slice write [lo,hi) := b, EVERY valid slice
+   [lo2,hi2) reads the written bits inside the window and the old bits outside it; the same window reads back b itself;
+   a disjoint window reads what it read before the write *)
+Theorem C05_slice_read_after_write n u nx lo hi b r lo2 hi2 :
+  wfn n -> inrange n u -> inrange (hi - lo) b -> 0 <= lo < hi -> hi <= n ->
+  spec_setitem n u nx (ISlice (Some lo) (Some hi) None) (OBits (hi - lo) b) = Ok r ->
+  0 <= lo2 < hi2 -> hi2 <= n ->
+  exists u', r = (n, u', nx) /\ inrange n u' /\
+  exists v, spec_getitem n u' (ISlice (Some lo2) (Some hi2) None) = Ok (hi2 - lo2, v) /\
+    inrange (hi2 - lo2) v /\
+    (forall i, 0 <= i < hi2 - lo2 ->
+       Z.testbit v i = if (lo <=? lo2 + i) && (lo2 + i <? hi) then Z.testbit b (lo2 + i - lo)
+                       else Z.testbit u (lo2 + i)) /\
+    (lo2 = lo -> hi2 = hi -> v = b) /\
+    (hi2 <= lo \/ hi <= lo2 -> spec_getitem n u (ISlice (Some lo2) (Some hi2) None) = Ok (hi2 - lo2, v)).
+Proof. exact (slice_read_after_write n u nx lo hi b r lo2 hi2). Qed.
+
+Example C05_read_after_write_nonvacuous :
+  (* Bits8(0xab)[2:6] = 0b0101 : 0xab = 1010_1011 -> 1001_0111 = 0x97; reading [2:6] gives 5, [6:8] still 2, [0:4] = 7 *)
+  bits_setitem 8 171 0 (ISlice (Some 2) (Some 6) None) (OBits 4 5) = Ok (8, 151, 0)
+  /\ bits_getitem 8 151 0 (ISlice (Some 2) (Some 6) None) = Ok (4, 5)
+  /\ bits_getitem 8 151 0 (ISlice (Some 6) (Some 8) None) = bits_getitem 8 171 0 (ISlice (Some 6) (Some 8) None)
+  /\ bits_getitem 8 151 0 (ISlice (Some 0) (Some 4) None) = Ok (4, 7).
+Proof. vm_compute. repeat split. Qed.
 
 (* helpers *)
 Theorem C05_concat xs : Forall wfpair xs -> 0 < fst (concat_spec xs) < 1024 -> h_concat xs = Ok (concat_spec xs).
@@ -113,3 +138,4 @@ Print Assumptions C05_zext. Print Assumptions C05_zext_guard. Print Assumptions 
 Print Assumptions C05_reduce_and. Print Assumptions C05_reduce_or. Print Assumptions C05_reduce_xor.
 Print Assumptions C05_clog2. Print Assumptions C05_clog2_total. Print Assumptions C05_clog2_generated. Print Assumptions C05_trunc_generated. Print Assumptions C05_zext_generated.
 Print Assumptions C05_sext_generated. Print Assumptions C05_reduce_and_generated. Print Assumptions C05_reduce_or_generated.
+Print Assumptions C05_slice_read_after_write. Print Assumptions C05_read_after_write_nonvacuous.
